@@ -30,7 +30,9 @@ RULE = ('48-bit MACs {0, 2^48-1, single bits, U/L bit set/clear, random} in five
         'addresses (strict and inet_aton forms), IPv4 CIDRs, malformed and non-str prefixes; interface-identifier addresses built independently '
         'for the inverse; hosts (names, IPv4, IPv6 +- scope, hostile strings) x ports {0,1,80,65535,65536,-1,random} x default ports; raw '
         'address strings for parse_host_port; URLs from a component grammar x allow_fragments x default scheme; query strings with repeated '
-        'names; distinct = distinct case JSON; trivial = none')
+        'names; call SEQUENCES (statelessness: every helper repeated after other calls, urlsplit with all allow_fragments/scheme combinations on the '
+        'same and on equal-but-not-identical URLs, params() repeatedly on one object, calls that raise in between) run on a fresh module '
+        'instance and compared call by call with the same call alone on its own fresh instance; distinct = distinct case JSON; trivial = none')
 
 M64 = (1 << 64) - 1
 
@@ -272,6 +274,40 @@ def rand_net_text(rng):
     return rng.choice([a4 + '/' + a6, a6 + '/' + a4, a6 + '%eth0', a6 + '%eth0/64', '/' + a6, a6 + '//64', a4 + '\x00', a6.replace(':', '.', 1), '::/::', '::/ffff::', '0.0.0.0/0.0.0.0',
                        '1.2.3.4/255.255.255.255', '1.2.3.4/0.0.0.255', '1.2.3.4/255.0.255.0', '01.2.3.4/8', '1.2.3/8', '::ffff:1.2.3.4/120', '1::2::3', ':::', '::', '1:2:3:4:5:6:7:8:9'])
 
+SEQ_URLS = ['http://h/p#f', 'http://h/p?q=1#f?x', 'http://u:p@[::1]:80/a;b?x=1&x=2#frag', '//h/p#a#b', 'p#f?q', 'http://h/#', 'svn+ssh://h/p?a=1&a=2#x=1',
+            'http://h/p', 'http://h/p?a=1&b=2&a=3', '#', 'x#y', 'http://[fe80::1%25eth0]:8080/v2.0#top']
+def rand_seq(rng):
+    """a call sequence for the statelessness oracle: the same urlsplit arguments with every allow_fragments / scheme
+    combination in varying order, on the same and on equal-but-not-identical strings, interleaved with the other helpers
+    (repeated, also after calls that raise)"""
+    u = rng.choice(SEQ_URLS) if rng.random() < 0.6 else rand_url(rng)
+    if '#' not in u and rng.random() < 0.7: u += '#' + rng.choice(['f', 'a?b', '', 'x#y'])
+    combos = [(sc, al) for sc in ('', 'http', 'x') for al in (True, False)]
+    rng.shuffle(combos)
+    calls = []
+    for sc, al in combos[:rng.randint(2, 6)]:
+        calls.append({'op': 'url', 'url': u, 'scheme': sc, 'allow': al, 'copy': rng.random() < 0.4})
+    for _ in range(rng.randint(0, 2)):   # exact repeats
+        calls.append(dict(rng.choice(calls), copy=rng.random() < 0.5))
+    others = []
+    h, _f = rand_host(rng)
+    hp = {'op': 'hostport', 'host': h, 'port': rng.choice(PORTS), 'd': rand_default(rng)}
+    others += [hp, dict(hp, port=rng.choice(PORTS)), hp]
+    a = rand_address(rng)
+    others += [{'op': 'parse', 'addr': a, 'd': ['I', 1]}, {'op': 'parse', 'addr': a, 'd': ['N', 0]}, {'op': 'parse', 'addr': '[a', 'd': ['N', 0]}]
+    e = case_eui(rng)
+    others += [e, dict(e, mac='zz', fam_m='bad'), e, dict(e, prefix='10.0.0.1', fam_p='v4addr'), e]
+    m = case_inv(rng)
+    others += [m, {'op': 'mac', 'ver': 4, 'v': 1}, m]
+    q = rand_query(rng)
+    others += [{'op': 'params2', 'q': q}, {'op': 'params', 'q': q, 'via': False}, {'op': 'params2', 'q': q}]
+    others += [{'op': 'url', 'url': 'http://[::1', 'scheme': '', 'allow': True}]          # raises
+    rng.shuffle(others)
+    k = rng.randint(2, 7)
+    for o in others[:k]:
+        calls.insert(rng.randint(0, len(calls)), o)
+    return {'op': 'seq', 'calls': calls}
+
 def case_inv(rng):
     """an interface-identifier based address built without the implementation"""
     r = rng.random()
@@ -300,6 +336,11 @@ def gen_cases(rng, tier):
             yield {'op': 'parse', 'addr': a, 'd': d}
     for _ in range(2500 * k): yield case_eui(rng)
     for _ in range(800 * k): yield case_inv(rng)
+    # statelessness: the answer to a call does not depend on earlier calls
+    yield {'op': 'seq', 'calls': [{'op': 'url', 'url': 'http://h/p#f', 'scheme': '', 'allow': a} for a in (True, False, True)]}
+    yield {'op': 'seq', 'calls': [{'op': 'url', 'url': 'http://h/p?q#f', 'scheme': '', 'allow': a, 'copy': cp} for a, cp in ((False, False), (True, True), (False, True))]}
+    for _ in range(300 * k): yield rand_seq(rng)
+    for _ in range(200 * k): yield {'op': 'params2', 'q': rand_query(rng)}
     for _ in range(1500 * k): yield {'op': 'euiparse', 'm': rand_eui_text(rng)}
     for _ in range(1500 * k): yield {'op': 'net', 'p': rand_net_text(rng)}
     for _ in range(400 * k):
@@ -353,10 +394,53 @@ def _params_text(d):
     def pv(v): return S(v) if isinstance(v, str) else '[' + ','.join(S(x) for x in v) + ']'
     return ';'.join('%s=%s' % (S(k), pv(v)) for k, v in d.items())
 
+def _fresh_nu():
+    """a FRESH copy of oslo_utils/netutils.py (own module-level state), not registered in sys.modules"""
+    import importlib.util
+    repo = os.environ.get('VERIF_REPO', '/repo')
+    spec = importlib.util.spec_from_file_location('oslo_utils._verif_fresh_netutils', os.path.join(repo, 'oslo_utils', 'netutils.py'))
+    m = importlib.util.module_from_spec(spec)
+    spec.loader.exec_module(m)
+    return m
+
+def _copy_str(x):
+    """an equal but not identical str object"""
+    return ''.join(list(x)) if isinstance(x, str) and len(x) > 1 else x
+
+def _impl_seq(c):
+    """the calls of c['calls'] in order on ONE fresh module instance, and each call alone on its own fresh instance"""
+    import json
+    nu = _fresh_nu()
+    ins, alone = [], []
+    for sub in c['calls']:
+        try: ins.append(_impl(sub, nu))
+        except Exception as e: ins.append('HARNESS:' + type(e).__name__)
+    for sub in c['calls']:
+        try: alone.append(_impl(sub, _fresh_nu()))
+        except Exception as e: alone.append('HARNESS:' + type(e).__name__)
+    return json.dumps({'seq': ins, 'alone': alone})
+
 def impl(c):
-    nu = _nu()
+    if c['op'] == 'seq': return _impl_seq(c)
+    return _impl(c, _nu())
+
+def _impl(c, nu):
     import netaddr
     op = c['op']
+    if op == 'params2':
+        # one object: collapse True, False, (the returned containers are then vandalised), True, False again
+        r = nu._ModifiedSplitResult('http', 'h', '/p', c['q'], '')
+        out = []
+        for coll in (True, False, True, False):
+            try:
+                d = r.params(collapse=coll); out.append(_params_text(d))
+                for v in list(d.values()):
+                    if isinstance(v, list): v.append('vandal')
+                d['vandal'] = 'x'
+            except Exception as e: out.append(_cls(e))
+        return ' | '.join(out)
+    if op == 'url' and c.get('copy'):
+        c = dict(c, url=_copy_str(c['url']), scheme=_copy_str(c['scheme']))
     if op == 'eui':
         p, m = _pyvals(c)
         try:
@@ -436,6 +520,7 @@ def _libtag(e):
     return 'O'
 
 def encode(c):
+    if c['op'] in ('seq', 'params2'): return None
     nu = _nu()
     import netaddr
     op = c['op']
@@ -515,8 +600,39 @@ def host_family(h):
     if HOSTNAME.match(h): return 'name'
     return None
 
+def _oracle_seq(c, io):
+    import json
+    d = json.loads(io)
+    for i, sub in enumerate(c['calls']):
+        a, b = d['seq'][i], d['alone'][i]
+        if a != b:
+            return ('the answer depends on earlier calls: call #%d %s gives %s after %s, but %s on a fresh module'
+                    % (i, short_call(sub), a[:160], [short_call(x) for x in c['calls'][:i]], b[:160]))
+        msg = oracle(sub, a)
+        if msg and not zone(sub): return 'call #%d of the sequence: %s' % (i, msg)
+    return None
+
+def short_call(sub):
+    op = sub['op']
+    if op == 'url': return 'urlsplit(%r, %r, %r)%s' % (sub['url'], sub['scheme'], sub['allow'], ' [copy]' if sub.get('copy') else '')
+    if op == 'params2': return 'params x4(%r)' % sub['q']
+    if op == 'params': return 'params(%r)' % sub['q']
+    if op == 'parse': return 'parse_host_port(%r, %r)' % (sub['addr'], _dflt(sub['d']))
+    if op == 'hostport': return 'escape_ipv6/parse_host_port(%r, %r)' % (sub['host'], sub['port'])
+    if op == 'eui': return 'get_ipv6_addr_by_EUI64(%r, %r)' % (sub['prefix'], sub['mac'])
+    if op == 'mac': return 'get_mac_addr_by_ipv6(%r)' % sub['v']
+    return op
+
 def oracle(c, io):
     op = c['op']
+    if op == 'seq': return _oracle_seq(c, io)
+    if op == 'params2':
+        q = c['q']
+        qs = _uparse.parse_qs(q)
+        w1 = _params_text({k: v[-1] for k, v in qs.items()})
+        w2 = _params_text({k: (v[0] if len(v) == 1 else v) for k, v in qs.items()})
+        want = ' | '.join([w1, w2, w1, w2])
+        return None if io == want else 'params() called repeatedly on one object for %r: %s, expected %s' % (q, io[:200], want[:200])
     if op == 'eui':
         f = io[2:io.index(' R:')]; back = io[io.index(' R:') + 3:]
         exn_ok = f in ('EXN:ValueError', 'EXN:TypeError')
@@ -590,6 +706,7 @@ def zone(c):
 
 def classify(c, io):
     op = c['op']
+    if op == 'seq': return 'seq:%d' % len(c['calls'])
     if op == 'eui': return 'eui:%s/%s%s' % (c['fam_p'], c['fam_m'], ':exn' if 'F:EXN' in io else '')
     if op == 'hostport': return 'hostport:%s' % (host_family(c['host']) or 'other')
     if op == 'mac': return 'mac:v%d%s' % (c['ver'], ':exn' if 'EXN' in io else '')
